@@ -71,6 +71,13 @@ def seeded(ctx, rng, n):
                 src[a] += xs[0] * xs[1] * qa
             ys = [pe(src, x) for x in xs]
             ds = [pe(pd(src), x) for x in xs]
+        if has_src and m >= 2 and rng.random() < 0.1:
+            # a genuine leading coefficient between a tight zeroing tolerance and the library's default one (1e-10): it is
+            # above the tolerance the caller asked for and must survive
+            tol = 10.0 ** (-rng.uniform(12, 14))
+            src = [complex(rng.uniform(-2, 2), rng.uniform(-2, 2) if cx else 0) for _ in range(deg)] + [complex(rng.uniform(2e-11, 8e-11), 0)]
+            ys = [pe(src, x) for x in xs]
+            ds = [pe(pd(src), x) for x in xs]
         cz = lambda z: c11.cz(z.real, z.imag)
         cases.append({"kind": kind, "cx": cx, "xs": [cz(x) for x in xs], "ys": [cz(y) for y in ys], "ds": [cz(d) for d in ds],
                       "tol": fp(tol), "src": [cz(s) for s in src], "has_src": has_src, "mismatch": False})
@@ -86,6 +93,19 @@ def judge(ctx, cases):
         c["id"] = k + 1
     rows = fncommon.observe(ctx, "interp", cases, "itp", nproc=4)
     viols = fncommon.validate(ctx, rows, "Val_C15", "itp", nshards=12)
+    # design level (drift, not a violation): every hermite() call replayed through module HermiteDD over doubles - the
+    # divided-difference table, the Horner assembly and the cleaning, coefficient by coefficient, bit for bit
+    hrows = [{"id": r["id"], "kind": r["kind"], "cx": r["cx"], "xs": r["xs"], "ys": r["ys"], "ds": r["ds"], "tol": r["tol"],
+              "obs": {"st": r["obs"]["st"], "coefs": r["obs"].get("coefs", [])}} for r in rows if r["kind"] == "hermite"]
+    if hrows:
+        ndrift = len(ctx.drift)
+        fncommon.validate(ctx, hrows, "Trace_HermiteDD", "itpdl", nshards=12)
+        ctx.traces -= len(hrows)
+        st = [x for x in ctx.notes.get("_stat", []) if x and x[0] == "hermite_runs_explained"]
+        ctx.notes["_stat"] = [x for x in ctx.notes.get("_stat", []) if not (x and x[0] == "hermite_runs_explained")]
+        for key, v in (("validated_against_design", len(hrows)), ("explained_bit_for_bit", sum(x[1] for x in st)),
+                       ("drifted", len(ctx.drift) - ndrift)):
+            ctx.notes["hermite_runs_%s" % key] = ctx.notes.get("hermite_runs_%s" % key, 0) + v
     for c in cases:
         ctx.count_case(brief(c), len(c["xs"]) >= 2)
     for c in cases[:: max(1, len(cases) // 3)][:3]:
@@ -98,6 +118,10 @@ def judge(ctx, cases):
 
 def run(ctx):
     rng = random.Random(ctx.seed)
+    # E1: the design model of hermite() (divided-difference table, Horner assembly, cleaning) over exact rationals: values and
+    # derivatives matched up to what the cleaning may remove, exactly at a zero tolerance; Err exactly for mismatched lengths
+    vlib.e1(ctx, "MC_HermiteDD", "HermiteDD", ["Begin", "Cell", "Horner", "Finish"],
+            cfg="MC_HermiteDD.cfg" if ctx.tier == "quick" else "MC_HermiteDD_thorough.cfg", workers=4, timeout=3000)
     cases = fncommon.gen_tlc(ctx, "Gen_C15", "c15", timeout=1800)
     n = len(cases)
     cases += seeded(ctx, rng, 400 if ctx.tier == "quick" else 4000)
